@@ -129,7 +129,9 @@ def gen_case(rng):
     if any(e["kind"] == "agent_removal" and e["agent_type"] == "sensor" for e in events):
         events = [e for e in events if not (e["kind"] == "sensor_time_bias" and e["sensor"] == S_IDS[1])] or events[:1]
     return {"kind": "case", "start": start.isoformat(), "step": step, "n": n, "events": events, "model": rng.choice(["two_body"] * 4 + ["special_perturbations"]),
-            "aware_times": rng.random() < 0.5, "visible": rng.random() < 0.5, "engine_ids": rng.choice([[1, 2], [0, 7], [7, 0], [5, 0], [0, 1], [12, 3]])}
+            "aware_times": rng.random() < 0.5, "visible": rng.random() < 0.5, "engine_ids": rng.choice([[1, 2], [0, 7], [7, 0], [5, 0], [0, 1], [12, 3]]),
+            # names are free-form labels: the satellite / sensor that joins by an event may carry the name of an agent already present
+            "dup_names": rng.random() < 0.35}
 
 
 # ---------------------------------------------------------------------------------------------
@@ -178,6 +180,9 @@ def build_cfg(case):
     snew = sk.ground_sensor_cfg(NEW_S, 50.0, 10.0, **blind)
     rs, vs = sk.circ_state(7300.0, 63.0, 200.0, 10.0)
     snew_space = sk.space_sensor_cfg(NEW_S, rs, vs, kind="optical")
+    if case.get("dup_names"):
+        tcfg[NEW_T]["name"] = tcfg[T_IDS[0]]["name"]
+        snew["name"] = snew_space["name"] = s1["name"]
     eid = {1: case.get("engine_ids", [1, 2])[0], 2: case.get("engine_ids", [1, 2])[1]}
     engines = [sk.engine_cfg(eid[1], [tcfg[T_IDS[0]], tcfg[T_IDS[1]]], [s1]), sk.engine_cfg(eid[2], [tcfg[T_IDS[2]], tcfg[T_IDS[3]]], [s2, s3])]
     evs = []
